@@ -78,6 +78,15 @@ Theorem C16_native_result_holds_no_undefined : forall p e c v,
 Proof. exact native_no_leak. Qed.
 Print Assumptions C16_native_result_holds_no_undefined.
 
+(* 1f. row level, for the code of this run: when parse_as_string looks through native results
+   (probed constant), the list a begin_for row iterates over - whatever cell produced it - has no
+   element that is or holds an Undefined object: no loop variable is ever bound to one *)
+Theorem C16_loop_entries_hold_no_undefined : native_result_checked = true ->
+  forall pe pn octx r log log' inc es,
+  inst_row pe pn octx r log = (log', Ok (inc, MEntries es)) -> Forall (fun v => has_undef v = false) es.
+Proof. exact loop_entries_no_undefined. Qed.
+Print Assumptions C16_loop_entries_hold_no_undefined.
+
 (* 2. defined references are replaced by exactly their value, in place, under either policy *)
 Theorem C16_defined_exact : forall rf p c x v s pre post rest,
   lookup c x = Some v -> reserved_var x = false -> to_str rf p v = Ok s ->
